@@ -654,6 +654,12 @@ func (p *authProp) run(rc *RunCtx, ap *AuthParams, info *RunInfo) *Verdict {
 			}
 		}
 		d.firstAuthz = first
+		if regSends >= 2 && fetches == 0 && first == "" && d.err == nil && d.status == 200 && strings.HasPrefix(ap.Hosts[d.q.Host].Scheme, "bearer") && !ap.Hosts[d.q.Host].PresetToken {
+			info.Probes["token_shared_or_cached_after_challenge"]++
+		}
+		if regSends == 3 {
+			info.Probes["three_sends"]++
+		}
 		if strings.HasPrefix(first, "Basic ") {
 			gotCred = true
 		}
